@@ -1631,6 +1631,25 @@ pub fn strategy() -> BoxedStrategy<Scenario> {
     strategy_with(0)
 }
 
+/// Clamp a byte-decoded scenario into the generator's domain (fuzz tier).
+pub fn fuzz_sanitize(sc: &mut Scenario) -> bool {
+    sc.strict = 0;
+    sc.probe = None;
+    sc.scan_every = [1u8, 3, 8][(sc.scan_every % 3) as usize];
+    sc.ops.truncate(40);
+    for st in sc.ops.iter_mut() {
+        fshistory::sanitize_step(st);
+    }
+    // the generator's fixed prologue on host 0 (directories the op weights assume)
+    let mut pre = vec![
+        Step { host: 0, op: Op::CreateDirAll { path: 3, fe: Fe::Std } },
+        Step { host: 0, op: Op::CreateDir { path: 2, fe: Fe::Tokio } },
+    ];
+    pre.append(&mut sc.ops);
+    sc.ops = pre;
+    sc.ops.len() > 2
+}
+
 // ---------------------------------------------------------------------------
 // probes: fixed histories, everything strict, dedicated signatures
 
